@@ -14,7 +14,11 @@ TypeLevelOk   == {"ghosts", "where_clause", "child_parents"}
 TypeMisplaced == {"parent", "literal", "pattern", "type_hint"}
 \* near-misses the documentation anticipates ("Perhaps you meant ...")
 TypeMisnamed  == {"children", "ghost", "child"}
-MemberOk      == {"map", "ghost_nd", "ghost_d", "child", "parent0", "literal", "pattern", "type_hint"}
+MemberOk      == {"map", "ghost_nd", "ghost_d", "ghost_owned_d", "ghost_ref_d", "child", "parent0", "parentp_idx", "parentp_untyped", "literal", "pattern", "type_hint"}
+\* parentp_idx: #[parent(0)] -- a parameterised parent whose child field is given by index and carries no name;
+\* parentp_untyped: #[parent(b1, [parent(c1)] inner)] -- a nested parent without its type
+IsParentItem(n) == n \in {"parent0", "parentp_idx", "parentp_untyped"}
+GhostKinds(n) == CASE n \in {"ghost_nd", "ghost_d"} -> Kinds [] n = "ghost_owned_d" -> {"OI", "FO", "OIE"} [] n = "ghost_ref_d" -> {"RI", "FR", "RIE"} [] OTHER -> {}
 MemberMisplaced == {"where_clause"}
 MemberMisnamed  == {"children", "child_parents"}
 Unknown == {"bogus"}
@@ -28,7 +32,7 @@ AllMemberAttrs(in) == UNION {ToSetQ(in.ms[i]) : i \in DOMAIN in.ms}
 Count(s, P(_)) == Cardinality({i \in DOMAIN s : P(s[i])})
 
 \* instructions that are recognised at the level where they stand (only these take part in the semantic rules)
-UnsupportedOn(dt) == IF dt = "struct" THEN {"literal", "pattern", "type_hint"} ELSE {"parent0", "child"}
+UnsupportedOn(dt) == IF dt = "struct" THEN {"literal", "pattern", "type_hint"} ELSE {"parent0", "parentp_idx", "parentp_untyped", "child"}
 RecognisedT(in) == {x \in ToSetQ(in.tattrs) : x.n \in TypeLevelOk}
 RecognisedM(in, i) == {x \in ToSetQ(in.ms[i]) : x.n \in MemberOk \ UnsupportedOn(in.dt)}
 
@@ -41,12 +45,12 @@ SecondDefaultT(in) == {[c |-> "second_default", a |-> n] : n \in {m \in TypeLeve
 SecondDedicatedT(in) == {[c |-> "second_dedicated", a |-> p[1] \o ":" \o p[2]] :
                           p \in {q \in TypeLevelOk \X {"A", "B", "Z"} : Count(in.tattrs, LAMBDA x : x.n = q[1] /\ x.cp = q[2]) > 1}}
 \* class 5, member level: parent on struct fields; literal / pattern / type_hint on enum variants
-PerMemberUnique(in) == IF in.dt = "struct" THEN {"parent0"} ELSE {"literal", "pattern", "type_hint"}
-InstrLabel(n) == IF n = "parent0" THEN "parent" ELSE n
-SecondDefaultM(in) == {[c |-> "second_default", a |-> InstrLabel(n)] :
-                         n \in {m \in PerMemberUnique(in) : \E i \in DOMAIN in.ms : Count(in.ms[i], LAMBDA x : x.n = m /\ x.cp = "-") > 1}}
-SecondDedicatedM(in) == {[c |-> "second_dedicated", a |-> InstrLabel(p[1]) \o ":" \o p[2]] :
-                          p \in {q \in PerMemberUnique(in) \X {"A", "B", "Z"} : \E i \in DOMAIN in.ms : Count(in.ms[i], LAMBDA x : x.n = q[1] /\ x.cp = q[2]) > 1}}
+InstrLabel(n) == IF IsParentItem(n) THEN "parent" ELSE n
+PerMemberUnique(in) == IF in.dt = "struct" THEN {"parent"} ELSE {"literal", "pattern", "type_hint"}
+SecondDefaultM(in) == {[c |-> "second_default", a |-> l] :
+                         l \in {m \in PerMemberUnique(in) : \E i \in DOMAIN in.ms : Count(in.ms[i], LAMBDA x : InstrLabel(x.n) = m /\ x.cp = "-") > 1}}
+SecondDedicatedM(in) == {[c |-> "second_dedicated", a |-> p[1] \o ":" \o p[2]] :
+                          p \in {q \in PerMemberUnique(in) \X {"A", "B", "Z"} : \E i \in DOMAIN in.ms : Count(in.ms[i], LAMBDA x : InstrLabel(x.n) = q[1] /\ x.cp = q[2]) > 1}}
 
 \* class 6: misplaced / misnamed / unknown instructions.  A bare attribute o2o does not know is somebody else's attribute
 \* (no diagnostic); written inside #[o2o(...)] it is o2o's own and must be reported.
@@ -79,21 +83,39 @@ ChildNoParents(in) ==
 \* class 9: tuple struct mapped to a named counterpart (`as {}`) needs a member name on every mapped member, for every conversion.
 \* A member is excused when it is a ghost or a parent for that counterpart.
 NamedFor(in, i, cp) == \E x \in RecognisedM(in, i) : x.n = "map" /\ x.cp \in {"-", cp}
-ExcusedFor(in, i, cp) == \E x \in RecognisedM(in, i) : x.n \in {"ghost_d", "ghost_nd", "parent0"} /\ x.cp \in {"-", cp}
+\* a member is excused for conversion kind k when it is a ghost for k (ghost_owned / ghost_ref apply to one ownership only) or a parent
+ExcusedFor(in, i, cp, k) == \E x \in RecognisedM(in, i) : x.cp \in {"-", cp} /\ (IsParentItem(x.n) \/ k \in GhostKinds(x.n))
 TupleNamed(in) ==
   IF in.dt # "struct" \/ in.shape # "tuple" THEN {} ELSE
   {[c |-> "tuple_named_mismatch", a |-> ToString(p[1] - 1)] :
      p \in {q \in (DOMAIN in.ms) \X (DOMAIN in.traits) :
-              in.traits[q[2]].hint = "struct" /\ ~NamedFor(in, q[1], in.traits[q[2]].cp) /\ ~ExcusedFor(in, q[1], in.traits[q[2]].cp)}}
+              in.traits[q[2]].hint = "struct" /\ ~NamedFor(in, q[1], in.traits[q[2]].cp)
+              /\ \E k \in Appl(in.traits[q[2]].n) : ~ExcusedFor(in, q[1], in.traits[q[2]].cp, k)}}
+\* class 9 for parameterised parents: a child field given by index has no name to go by in a named counterpart (any conversion that is not a From,
+\* into_existing included)
+ParentFieldUnnamed(in) ==
+  IF in.dt # "struct" THEN {} ELSE
+  {[c |-> "parent_field_unnamed", a |-> "0"] :
+     p \in {q \in (DOMAIN in.ms) \X (DOMAIN in.traits) :
+              (\E x \in RecognisedM(in, q[1]) : x.n = "parentp_idx" /\ x.cp \in {"-", in.traits[q[2]].cp})
+              /\ Appl(in.traits[q[2]].n) \cap {"OI", "RI", "OIE", "RIE"} # {}
+              /\ (in.traits[q[2]].hint = "struct" \/ in.shape = "named")}}
+\* class 10: a nested parent must state its type for From conversions (the nested value has to be constructed)
+UntypedParent(in) ==
+  IF in.dt # "struct" THEN {} ELSE
+  {[c |-> "untyped_parent", a |-> "inner"] :
+     p \in {q \in (DOMAIN in.ms) \X (DOMAIN in.traits) :
+              (\E x \in RecognisedM(in, q[1]) : x.n = "parentp_untyped" /\ x.cp \in {"-", in.traits[q[2]].cp})
+              /\ Appl(in.traits[q[2]].n) \cap {"FO", "FR"} # {}}}
 
 \* class 12: instruction not supported on this kind of member
 Unsupported(in) ==
   IF in.dt = "struct" THEN {[c |-> "unsupported_member", a |-> x.n] : x \in {y \in AllMemberAttrs(in) : y.n \in {"literal", "pattern", "type_hint"}}}
-  ELSE {[c |-> "unsupported_member", a |-> "parent"] : x \in {y \in AllMemberAttrs(in) : y.n = "parent0"}}
+  ELSE {[c |-> "unsupported_member", a |-> "parent"] : x \in {y \in AllMemberAttrs(in) : IsParentItem(y.n)}}
 
 Bare(S) == {[c |-> x, a |-> "-"] : x \in S}
 Faults(in) == Bare(TraitFaults(in.traits)) \cup UnknownCp(in) \cup SecondDefaultT(in) \cup SecondDedicatedT(in)
               \cup SecondDefaultM(in) \cup SecondDedicatedM(in) \cup Misplaced(in) \cup Misnamed(in) \cup UnknownInstr(in)
-              \cup GhostNoDefault(in) \cup ChildNoParents(in) \cup TupleNamed(in) \cup Unsupported(in)
+              \cup GhostNoDefault(in) \cup ChildNoParents(in) \cup TupleNamed(in) \cup ParentFieldUnnamed(in) \cup UntypedParent(in) \cup Unsupported(in)
 FaultKeys(in) == {x.c \o "/" \o x.a : x \in Faults(in)}
 =============================================================================
